@@ -450,3 +450,162 @@ def dimension_atoms(effs):
             continue
         res.append(a)
     return res
+
+
+# ---------------------------------------------------------------- integer values
+class IntMachine(Memory):
+    """Evaluation of an effect tree on concrete integer data (nothing of the library runs: loop descriptors, conditions and value terms
+    produced by the symbolic executor are evaluated).  Memory cells hold Python integers; loads of cells nobody wrote come from
+    `inputs` (location -> int) or raise NotEvaluable.  Arithmetic follows the library's conventions for torus words: values are
+    kept as mathematical integers, and the left operand of >>, &, |, ^, %, / is first reduced to its 32-bit unsigned pattern (casts
+    are dropped by the executor; the signedness of right shifts is audited separately, sa/shifts.py).  Scalar locals follow the
+    executor's snapshot convention (see PolyState.segment); pointer locals hold locations."""
+    M32 = (1 << 32) - 1
+
+    def __init__(self, scalars=None, inputs=None):
+        Memory.__init__(self)
+        self.scalars = dict(scalars or {})      # term -> int (parameters, fields of parameter objects)
+        self.inputs = dict(inputs or {})        # location -> int
+        self.live, self.snap = {}, {}
+
+    def segment(self, env=None, loop=None):
+        keep = set((loop or {}).get("derived") or ())
+        self.snap = {k: (self.snap[k] if k[1] in keep and k in self.snap else v) for k, v in self.live.items()}
+
+    def loc(self, lv, env):
+        """location of an lvalue; subscripts and pointer locals are evaluated"""
+        t = lv
+        while t[0] == "cast":
+            t = t[2]
+        if t[0] == "idx":
+            r, p = self.ptr(t[1], env)
+            k = self.ival(t[2], env)
+            if k is None:
+                raise NotEvaluable("subscript %s" % sym.show(t[2])[:80])
+            if p and isinstance(p[-1], int):
+                return r, p[:-1] + (p[-1] + k,)
+            return r, p + (k,)
+        if t[0] == "fld":
+            r, p = self.loc(t[1], env)
+            return r, p + (t[2],)
+        return t, ()
+
+    def ptr(self, p, env):
+        """location a pointer VALUE designates (its element 0)"""
+        while p[0] == "cast":
+            p = p[2]
+        if p[0] == "var" and isinstance(self.snap.get(p), tuple) and self.snap[p] and self.snap[p][0] == "loc":
+            return self.snap[p][1], self.snap[p][2]
+        if p[0] == "addr":
+            return self.loc(p[1], env)
+        if p[0] in ("fld", "idx"):
+            r, path = self.loc(p, env)           # a pointer-typed field / element is identified with the array it points to
+            return r, path + (0,)
+        return p, (0,)
+
+    def ival(self, t, env):
+        while t[0] == "cast":
+            t = t[2]
+        if t in env and isinstance(env[t], int):
+            return env[t]
+        if t in self.scalars:
+            return self.scalars[t]
+        k = t[0]
+        if k == "int":
+            return t[1]
+        if k == "var":
+            val = self.snap.get(t)
+            return val if isinstance(val, int) else None
+        if k in ("idx", "fld"):
+            try:
+                loc = self.loc(t, env)
+            except NotEvaluable:
+                return None
+            val = Memory.read(self, loc)
+            if isinstance(val, int):
+                return val
+            return self.inputs.get(loc)
+        if k == "poly":
+            tot = 0
+            for mono, c in t[1]:
+                val = c
+                for a in mono:
+                    x = self.ival(a, env)
+                    if x is None:
+                        return None
+                    val *= x
+                tot += val
+            return tot
+        if k == "cond":
+            c = self.ival(t[1], env)
+            return None if c is None else self.ival(t[2] if c else t[3], env)
+        if k == "un":
+            x = self.ival(t[2], env)
+            return None if x is None else {"!": int(not x), "-": -x, "~": ~x & self.M32}.get(t[1])
+        if k == "call" and t[1] == "$loop_end":
+            args = [self.ival(a, env) for a in t[2][:3]]
+            if None in args:
+                return None
+            return eval_term(("call", "$loop_end", tuple(("int", a) for a in args) + tuple(t[2][3:])), {})
+        if k == "op":
+            a, b = self.ival(t[2], env), self.ival(t[3], env)
+            if a is None or b is None:
+                return None
+            op = t[1]
+            if op in (">>", "&", "|", "^", "%", "/"):
+                a &= self.M32
+            try:
+                if op in ("<<", ">>") and not 0 <= b < 64:
+                    return None
+                return int({"<<": lambda: a << b, ">>": lambda: a >> b, "&": lambda: a & b, "|": lambda: a | b, "^": lambda: a ^ b,
+                            "%": lambda: a % b, "/": lambda: a // b, "<": lambda: a < b, "<=": lambda: a <= b, ">": lambda: a > b,
+                            ">=": lambda: a >= b, "==": lambda: a == b, "!=": lambda: a != b,
+                            "&&": lambda: bool(a) and bool(b), "||": lambda: bool(a) or bool(b)}[op]())
+            except (KeyError, ZeroDivisionError, ValueError):
+                return None
+        return None
+
+    def handler(self, on_call=None):
+        def h(kind, x, env):
+            if kind == "cond":
+                c = self.ival(x["cond"], env)
+                return None if c is None else bool(c)
+            if kind == "local":
+                key = ("var", x["name"], x["id"])
+                t = x["new"] if isinstance(x.get("new"), tuple) else x.get("val")
+                val = self.ival(t, env) if isinstance(t, tuple) else None
+                if val is None and isinstance(t, tuple):
+                    try:
+                        r, p = self.ptr(t, env)
+                        val = ("loc", r, p)
+                    except NotEvaluable:
+                        val = None
+                self.live[key] = val
+                return None
+            if kind == "store":
+                val = self.ival(x["val"], env) if isinstance(x.get("val"), tuple) else None
+                loc = self.loc(x["lv"], env)
+                op = x.get("op") or "="
+                if op != "=":
+                    old = Memory.read(self, loc)
+                    old = old if isinstance(old, int) else self.inputs.get(loc)
+                    if old is None or val is None:
+                        raise NotEvaluable("update of %s at line %s" % (sym.show(x["lv"])[:60], x.get("l")))
+                    fn_ = {"+=": lambda: old + val, "-=": lambda: old - val, "*=": lambda: old * val,
+                           "<<=": lambda: old << val if 0 <= val < 64 else None, ">>=": lambda: (old & self.M32) >> val if 0 <= val < 64 else None,
+                           "&=": lambda: (old & self.M32) & val, "|=": lambda: old | val, "^=": lambda: old ^ val}.get(op)
+                    val = fn_() if fn_ else None
+                if val is None:
+                    raise NotEvaluable("value %s stored at line %s" % (sym.show(x["val"])[:60] if isinstance(x.get("val"), tuple) else "?", x.get("l")))
+                self.write(loc, val)
+                return None
+            if kind in ("alloc", "delete"):
+                return None
+            if kind == "call":
+                if x.get("noreturn"):
+                    return None
+                if on_call is not None and on_call(x, env):
+                    return None
+                raise NotEvaluable("call of %s at line %s" % (x.get("name"), x.get("l")))
+            raise NotEvaluable("%s at line %s" % (kind, x.get("l")))
+        return h
